@@ -120,6 +120,34 @@ theorem string_roundtrip (v : Bytes) (h : v.length < 2 ^ 24) (rest : Bytes) :
 theorem vector_header_roundtrip (n : Nat) (h : n < 2 ^ 31) (rest : Bytes) :
     getVectorHeader (putVectorHeader n ++ rest) = .ok (n, rest) := getVectorHeader_put n rest h
 
+/-- **Unambiguous concatenation.**  The encodings are prefix-free: when two field sequences start
+with encoded byte strings (resp. int32, int64) and are equal as byte streams, the values and the
+remainders are equal — a decoder can never split one stream in two ways, and two different values
+never encode to the same bytes (take `r₁ = r₂ = []`). -/
+theorem encodings_prefix_free :
+    (∀ v w r₁ r₂ : Bytes, v.length < 2 ^ 24 → w.length < 2 ^ 24 →
+      putBytes v ++ r₁ = putBytes w ++ r₂ → v = w ∧ r₁ = r₂) ∧
+    (∀ (i j : Int) (r₁ r₂ : Bytes), (-2 ^ 31 ≤ i ∧ i < 2 ^ 31) → (-2 ^ 31 ≤ j ∧ j < 2 ^ 31) →
+      putInt32 i ++ r₁ = putInt32 j ++ r₂ → i = j ∧ r₁ = r₂) ∧
+    (∀ (i j : Int) (r₁ r₂ : Bytes), (-2 ^ 63 ≤ i ∧ i < 2 ^ 63) → (-2 ^ 63 ≤ j ∧ j < 2 ^ 63) →
+      putInt64 i ++ r₁ = putInt64 j ++ r₂ → i = j ∧ r₁ = r₂) := by
+  refine ⟨?_, ?_, ?_⟩
+  · intro v w r₁ r₂ hv hw h
+    have h1 := bytes_roundtrip v hv r₁
+    rw [h, bytes_roundtrip w hw r₂] at h1
+    injection h1 with h1; injection h1 with a b
+    exact ⟨a.symm, b.symm⟩
+  · intro i j r₁ r₂ hi hj h
+    have h1 := int_roundtrip i hi r₁
+    rw [h, int_roundtrip j hj r₂] at h1
+    injection h1 with h1; injection h1 with a b
+    exact ⟨a.symm, b.symm⟩
+  · intro i j r₁ r₂ hi hj h
+    have h1 := long_roundtrip i hi r₁
+    rw [h, long_roundtrip j hj r₂] at h1
+    injection h1 with h1; injection h1 with a b
+    exact ⟨a.symm, b.symm⟩
+
 /-- The 2^24 bound is sharp for the wire format: the 3-byte length field cannot carry 2^24, so the
 encoder's header for a 2^24-byte value is the header of an empty long-form value. -/
 theorem bytes_header_wraps_at_2_pow_24 : bytesHeader (2 ^ 24) = [254, 0, 0, 0] := by decide
